@@ -604,14 +604,16 @@ ARITY = {'sin': 1, 'cos': 1, 'exp': 1, 'sqrt': 1, 'abs': 1, 're': 1, 'im': 1, 'c
 CONSTANTS = {'i': 1j, 'j': 1j, 'e': math.e, 'pi': math.pi}
 
 VAR_NAMES = ['x', 'X', 'y', 'x1', 'x_1', 'x_{1}', 'T_{ij}^{k}', "x'", "y''", 'theta', 'a', 'b',
-             'c', 'd', 'aa', 'a_b2', 'z_{-2}', 'U^{3}', "w_1'", 'E', 'k', 'sinx', 'fx', 'pix', 'ex']
+             'c', 'd', 'aa', 'a_b2', 'z_{-2}', 'U^{3}', "w_1'", 'E', 'k', 'sinx', 'fx', 'pix', 'ex',
+             'V^{-1}', 'q_{1}^{-2}', "R_{ab}^{-c}'"]
 
 NUM_FORMS = [('1', 1.0), ('2', 2.0), ('3', 3.0), ('10', 10.0), ('0.5', 0.5), ('1.', 1.0),
              ('.5', 0.5), ('2.25', 2.25), ('1e3', 1e3), ('1E-3', 1e-3), ('2e+2', 2e2), ('1.5e1', 15.0),
              ('2.e0', 2.0), ('.5E1', 5.0), ('5%', 0.05), ('1.5e2%', 1.5), ('50%', 0.5), ('007', 7.0),
              ('0', 0.0), ('4', 4.0), ('12', 12.0), ('0.25', 0.25)]
 METRIC_FORMS = [('2k', 2e3), ('3.3M', 3.3e6), ('7u', 7e-6), ('1.5m', 1.5e-3), ('4G', 4e9),
-                ('2T', 2e12), ('8n', 8e-9), ('9p', 9e-12), ('1e3k', 1e6), ('.5k', 500.0)]
+                ('2T', 2e12), ('8n', 8e-9), ('9p', 9e-12), ('1e3k', 1e6), ('.5k', 500.0),
+                ('1.2345678p', 1.2345678e-12), ('2.5e-3p', 2.5e-15), ('9.1093837u', 9.1093837e-6), ('1.2345678901k', 1234.5678901)]
 
 
 def make_bindings(rng, complex_values=False, names=None):
